@@ -10,7 +10,7 @@ func init() {
 		Assume:    append([]string{"deterministic LIFO pool shim (build overlay) so that buffer recycling is reproducible; pool answers are choice points", "inputs are handed over with spare capacity, as a reused caller buffer would be"}, commonAssume...),
 		Jobs: func(tier string) []runner.Job {
 			return []runner.Job{{Harness: "c12.histories", Mode: "shim", Shards: 16}, {Harness: "c12.sizes", Mode: "shim", Shards: 16, GC: "on"}, {Harness: "c12.slices", Mode: "shim", Shards: 16},
-				{Harness: "c12.tokens", Mode: "plain", Shards: 8, GC: "on"}}
+				{Harness: "c12.tokens", Mode: "plain", Shards: 8, GC: "on"}, {Harness: "c12.views", Mode: "plain", Shards: 4, GC: "on"}}
 		},
 	})
 }
